@@ -61,9 +61,11 @@ def exhaustive(chk, tmp, prop):
         chk.add_tlc("Walker liveness (Terminates under weak fairness), all DAGs <= 2 nodes", res, temporal=["Terminates"])
 
 
-def drive(tmp, seed, count, maxn, race=False, policy=None, scenarios=None, tag="w"):
+def drive(tmp, seed, count, maxn, race=False, policy=None, scenarios=None, tag="w", alldags=0):
     out = os.path.join(tmp, f"walk_{tag}.json")
     env = {"VERIF_WALK_OUT": out, "VERIF_SEED": str(seed), "VERIF_WALK_COUNT": str(count), "VERIF_WALK_MAXN": str(maxn)}
+    if alldags:
+        env["VERIF_WALK_ALLDAGS"] = str(alldags)
     if policy:
         env["VERIF_WALK_POLICY"] = policy
     if scenarios is not None:
@@ -142,6 +144,11 @@ def run(chk, tmp, prop):
     exhaustive(chk, tmp, prop)
     batches = [("gated", chk.seed, 400 if quick else 4000, 6 if quick else 10, False, None),
                ("free", chk.seed + 1000, 100 if quick else 1000, 8 if quick else 12, False, "free")]
+    if prop in ("C04", "C05"):
+        # every DAG over 5 nodes (1024 graphs; thorough: also a second pass with other failing nodes / schedules)
+        batches.append(("alldags5", chk.seed + 4000, 0, 5, False, "alldags"))
+        if not quick:
+            batches.append(("alldags5b", chk.seed + 5000, 0, 5, False, "alldags"))
     if prop == "C04":
         batches.append(("race", chk.seed + 2000, 60 if quick else 600, 6 if quick else 10, True, None))
         batches.append(("race-free", chk.seed + 3000, 40 if quick else 400, 8, True, "free"))
@@ -152,7 +159,10 @@ def run(chk, tmp, prop):
     others = Counter()
     total_events = 0
     for tag, seed, count, maxn, race, policy in batches:
-        results, crash, races, text = drive(tmp, seed, count, maxn, race=race, policy=policy, tag=tag)
+        if policy == "alldags":
+            results, crash, races, text = drive(tmp, seed, count, maxn, race=race, tag=tag, alldags=maxn)
+        else:
+            results, crash, races, text = drive(tmp, seed, count, maxn, race=race, policy=policy, tag=tag)
         if crash and prop == "C04":
             chk.violation("walker:fatal-concurrent-map", crash, {"batch": tag, "seed": seed, "output": text[-4000:]})
         for fr in races:
